@@ -61,6 +61,13 @@ C10Part(d) ==
        /\ AllConfs(LAMBDA ki, li, f : Emit(MeanCase("harm", ty, "ci", ki, li, [rle |-> << <<V(1, 0), 1>>, <<V(100, 0), 1>> >>, order |-> "asc"], f)))
        /\ AllConfs(LAMBDA ki, li, f : Emit(MeanCase("harm", ty, "ci", ki, li,
                       [rle |-> << <<V(3, 0), 2>>, <<V(50, 0), 3>>, <<V(281, 0), 5>>, <<V(9000, 0), 6>> >>, order |-> "interleave"], f)))
+  \* samples beyond the t -> z switch (the normal branch has its own kind / level handling)
+  /\ \A ty \in {"f64", "f32"} : \A n \in {100001, 250000} :
+       LET big == [rle |-> << <<V(-3, -1), n \div 3>>, <<V(5, 0), n \div 3>>, <<V(64, 0), n - 2 * (n \div 3)>> >>, order |-> "interleave"]
+           bigp == [rle |-> << <<V(3, -1), n \div 3>>, <<V(5, 0), n \div 3>>, <<V(64, 0), n - 2 * (n \div 3)>> >>, order |-> "interleave"] IN
+       /\ AllConfs(LAMBDA ki, li, f : Emit(MeanCase("arith", ty, "extend", ki, li, big, f)))
+       /\ AllConfs(LAMBDA ki, li, f : Emit(MeanCase("harm", ty, "extend", ki, li, bigp, f)))
+       /\ (n = 100001) => AllConfs(LAMBDA ki, li, f : Emit(MeanCase("unpaired", ty, "ci", ki, li, big, f) @@ [datab |-> bigp]))
   \* proportions and quantiles
   /\ \A n \in (IF Thorough THEN 4..60 ELSE {4, 5, 9, 16, 30, 47, 60}) : \A k \in 2..(n - 2) : ((k * 7 + n) % 5 = 0 \/ Thorough) =>
        AllConfs(LAMBDA ki, li, f : Emit([op |-> "prop.ci", fe |-> "ci", n |-> n, k |-> k, conf |-> Conf(ki, li), li |-> li,
@@ -123,10 +130,12 @@ C16Part(d) ==
        /\ Emit(Tf(mkc(ident, TRUE), "base", <<>>))
        /\ \A pm \in PermsOf(n) \ {ident} : Emit(Tf(mkc(pm, FALSE), "reorder", <<>>))
   \* long streams (compensated accumulation makes the sums nearly order independent), f32 and f64
-  /\ \A N \in (IF Thorough THEN {100000, 1000000} ELSE {100000}) : \A ty \in {"f32", "f64"} : \A ki \in 1..3 :
+  /\ \A N \in (IF Thorough THEN {100000, 100003, 1000000} ELSE {100003}) : \A ty \in {"f32", "f64"} : \A ki \in 1..3 :
        LET data == [rle |-> << <<V(1, -3), N \div 2>>, <<V(3, 0), N \div 4>>, <<V(1001, -1), N \div 8>>, <<V(-77, 2), N - N \div 2 - N \div 4 - N \div 8>> >>,
                     order |-> "asc"] IN
        /\ Emit(Tf(MeanCase("arith", ty, "extend", ki, 12, data, TRUE), "base", <<>>))
+       /\ Emit(Tf(MeanCase("arith", ty, "extend", FlipK[ki], 12, data @@ [neg |-> TRUE], FALSE), "neg", <<>>))
+       /\ Emit(Tf(MeanCase("arith", ty, "extend", ki, 12, data @@ [scale |-> [p |-> -7]], FALSE), "scale", [k |-> -7]))
        /\ \A o \in DOMAIN Orders :
              Emit(Tf(MeanCase("arith", ty, "extend", ki, 12, [data EXCEPT !.order = Orders[o]], FALSE), "reorder", <<>>))
 
